@@ -682,7 +682,8 @@ func (w *world) shadowed(r *regionsim.Region) bool {
 		sc := 0
 		for _, p := range r.Peers {
 			for _, l := range labels {
-				if w.labels[id][l] != w.labels[p.Store][l] {
+				// pd's isolation score treats a missing label as "same location"
+				if a, b := w.labels[id][l], w.labels[p.Store][l]; a != "" && b != "" && a != b {
 					break
 				}
 				sc += 1000
@@ -1432,6 +1433,26 @@ func scopes() []*scopeSpec {
 	mr15 := []int{1, 2, 3, 4, 5}
 	zoneIso := [][2]int{{0, 0}, {1, 0}, {1, 1}}
 	return []*scopeSpec{
+		{name: "t1", tiers: "exp", n: []int{4}, maxReplicas: []int{3}, labelIso: [][2]int{{1, 1}}, rules: []int{rulesOff}, zones: 3,
+			goods: []cond{fresh}, first: cat(allHealthCombos(), tempFaults, useFaults), others: cat(singleFaults, tempFaults[:2]), maxBad: 2, maxPeers: 4, learners: true, maxFlags: 1, noJoint: f, desc_: f},
+		{name: "t1b", tiers: "exp", n: []int{4}, maxReplicas: []int{3}, labelIso: [][2]int{{1, 1}}, rules: []int{rulesOff}, zones: 3,
+			goods: []cond{fresh}, first: cat(allHealthCombos(), tempFaults, useFaults), others: cat(singleFaults, tempFaults[:2]), maxBad: 2, maxPeers: 4, learners: true, maxFlags: 2, leaderFlags: true, noJoint: f, desc_: f},
+		{name: "t2", tiers: "exp", n: []int{3}, maxReplicas: []int{3}, labelIso: [][2]int{{1, 1}}, rules: []int{rulesOff}, zones: 3,
+			goods: []cond{fresh}, first: cat(allHealthCombos(), tempFaults, useFaults), others:  cat(allHealthCombos(), tempFaults, useFaults), maxBad: 3, maxPeers: 3, learners: true, maxFlags: 2, leaderFlags: true, noJoint: f, desc_: f},
+		{name: "t4", tiers: "exp", n: []int{5}, maxReplicas: []int{3}, labelIso: [][2]int{{2, 1}}, rules: []int{rulesOff}, zones: 2, hosts: true,
+			goods: []cond{fresh}, first: cat(singleFaults, tempFaults[:1]), others: singleFaults, maxBad: 2, maxPeers: 4, learners: false, maxFlags: 1, noJoint: f, desc_: f},
+		{name: "t5", tiers: "exp", n: []int{4}, maxReplicas: []int{3}, labelIso: [][2]int{{1, 1}}, rules: []int{rulesOff}, zones: 3, nolabel: true,
+			goods: []cond{fresh, loaded}, first: cat(singleFaults, tempFaults[:1]), others: singleFaults, maxBad: 2, maxPeers: 4, learners: true, maxFlags: 1, noJoint: f, desc_: f},
+		{name: "t7", tiers: "exp", n: []int{5}, maxReplicas: []int{3}, labelIso: [][2]int{{1, 1}}, rules: []int{rulesDisjoint}, zones: 3,
+			goods: []cond{fresh}, first: cat(singleFaults, tempFaults[:2], useFaults[:1]), maxBad: 1, maxPeers: 4, learners: true, maxFlags: 1, noJoint: f, desc_: f},
+		{name: "t7b", tiers: "exp", n: []int{5}, maxReplicas: []int{3}, labelIso: [][2]int{{1, 1}}, rules: []int{rulesDefault}, zones: 3,
+			goods: []cond{fresh}, first: cat(singleFaults, tempFaults[:2], useFaults[:1]), maxBad: 1, maxPeers: 4, learners: true, maxFlags: 1, noJoint: f, desc_: f},
+		{name: "t8", tiers: "exp", n: []int{5}, maxReplicas: []int{2}, labelIso: [][2]int{{2, 2}}, rules: []int{rulesDisjoint}, zones: 3, hosts: true,
+			goods: []cond{fresh}, first: singleFaults, maxBad: 1, maxPeers: 4, learners: true, maxFlags: 0, noJoint: f, desc_: f},
+		{name: "t8b", tiers: "exp", n: []int{4}, maxReplicas: []int{2}, labelIso: [][2]int{{2, 2}}, rules: []int{rulesDisjoint}, zones: 3, hosts: true,
+			goods: []cond{fresh}, first: singleFaults, maxBad: 1, maxPeers: 4, learners: true, maxFlags: 1, noJoint: f, desc_: f},
+		{name: "t9", tiers: "exp", n: []int{4}, maxReplicas: []int{3}, labelIso: [][2]int{{1, 1}}, rules: []int{rulesDisjoint}, zones: 3,
+			goods: []cond{fresh}, first: cat(allHealthCombos(), tempFaults, useFaults), others: singleFaults, maxBad: 2, maxPeers: 4, learners: true, maxFlags: 1, noJoint: f, desc_: f},
 		{name: "replica/4stores/1bad", tiers: "quick",
 			desc: "replica checker + CheckRegion, 4 stores in <=3 zones (own hosts), max-replicas 1..5 x {no labels, [zone], [zone]+isolation zone}; <=1 not-good store with any state x heartbeat x space combination, a temporary condition (busy, add-peer limit, snapshots, pending peers) or a specialUse label; region <=4 peers with learners, <=1 peer down or pending",
 			n:    []int{4}, maxReplicas: mr15, labelIso: zoneIso, rules: []int{rulesOff}, zones: 3,
